@@ -356,6 +356,9 @@ def check_ref_property(prop: str, tier: str, seed: int) -> int:
             # in-place updates through view chains on C- and Fortran-ordered bases, and `.shape` assigned on a view of a
             # view followed by another update in the family: the cells of the operation table, every handle's values compared
             stage_optable(out, ["inplace"])
+        if prop == "C12":
+            # indexing with every spelling of the index arrays, masked operations: the caller's arrays stay as they were
+            stage_optable(out, ["getitem", "setitem", "wheremask", "whereout"])
         if prop == "C05":
             # exact gradients through in-place updates: the in-place cells of the operation table (view chains on C- and
             # Fortran-ordered bases, every index kind of setitem, where=/out= masks)
